@@ -123,6 +123,12 @@ Leaf(op, l, r) ==       \* l, r: Variants
                    ELSE Res(CASE op = "Gt" -> ~LexLeq(fv, val) [] op = "Gte" -> LexLeq(val, fv)
                               [] op = "Lt" -> ~LexLeq(val, fv) [] OTHER -> LexLeq(fv, val))
             [] OTHER -> Res(FALSE)
+  \* (the text operators see a number as it is printed; the model covers whole numbers that are not negative)
+  ELSE IF l.t = "I" /\ op \in {"Like", "NotLike", "Rx", "NotRx"} THEN
+     IF l.i < 0 \/ r.t # "S" THEN Abstain
+     ELSE LET val == r.s  fv == DigitsOfNat(l.i) IN
+          IF op \in {"Like", "NotLike"} THEN Res(IF op = "Like" THEN WildHolds(val, fv, "%", "_") ELSE ~WildHolds(val, fv, "%", "_"))
+          ELSE LET x == RxOfText(val) IN IF ~x.ok THEN Abstain ELSE Res(IF op = "Rx" THEN RxMatch(x.rx, fv) ELSE ~RxMatch(x.rx, fv))
   ELSE IF l.t = "I" THEN
      LET c == IF r.t = "I" THEN [ok |-> TRUE, i |-> r.i] ELSE IF r.t = "S" THEN ToInt(r.s) ELSE [ok |-> FALSE, i |-> 0] IN
      IF ~c.ok THEN Abstain
